@@ -154,3 +154,9 @@ Example blocked_reachable :
   let s := run_coarse (step false) at_site 50 [0;0;0;1;1]%nat (init [wprog; wprog]) in
   step false 1 s = None /\ match lget (ths s) 1%nat with Some th => finished th = false | None => False end.
 Proof. vm_compute. split; reflexivity. Qed.
+(* table intent locks are exercised: two threads take and drop intent locks on table 1 *)
+Example table_locks_reachable :
+  let s := run_coarse (step false) at_site 50 [0;1;0;1]%nat
+             (init [[OTAcq true 1; OTAcq false 1; OTRel 0]; [OTAcq false 1]]) in
+  s_tacq (sh s) = 3 /\ s_tbl (sh s) = [] /\ forallb (fun p => finished (snd p)) (ths s) = true.
+Proof. vm_compute. repeat split; reflexivity. Qed.
